@@ -140,7 +140,7 @@ func (x *Exec) callUnknown(s *State, evName, specName string, recv *Val, fv *Val
 	x.callCount[evName]++
 	if spec == nil {
 		res := x.freshResults(s, sig, evName)
-		s.events = append(s.events, Event{Name: evName, Recv: recv, Args: args, Res: splitTuple(sig, res)})
+		s.addEvent(Event{Name: evName, Recv: recv, Args: args, Res: splitTuple(sig, res)})
 		x.note("no contract for " + specName + ": results unconstrained, no effect on modelled heap (A8)")
 		x.bindCall(evName, res)
 		return res
@@ -248,7 +248,7 @@ func (x *Exec) applySpec(s *State, spec *FuncSpec, evName string, vars map[strin
 	if len(rs) == 1 {
 		post.vars["result"] = rs[0]
 	}
-	s.events = append(s.events, Event{Name: evName, Recv: recv, Args: args, Res: rs})
+	s.addEvent(Event{Name: evName, Recv: recv, Args: args, Res: rs})
 	post.events = s.events
 	for _, c := range spec.Ensures {
 		if usesEvents(c.Expr) {
@@ -342,14 +342,14 @@ func (x *Exec) callStatic(s *State, fn *ssa.Function, args []Val, env string, in
 		if fn.Signature.Recv() != nil && len(args) > 0 {
 			recv = &args[0]
 		}
-		s.events = append(s.events, Event{Name: name, Recv: recv, Args: args, Res: splitTuple(fn.Signature, res)})
+		s.addEvent(Event{Name: name, Recv: recv, Args: args, Res: splitTuple(fn.Signature, res)})
 		x.callCount[name]++
 		x.bindCall(name, res)
 		setRes(res)
 		return false
 	}
 	spec := x.P.specs.Funcs[name]
-	if spec != nil && !spec.Inline && fn != x.fn && !(x.relMode && contains(x.spec.RelInline, name)) {
+	if spec != nil && !spec.Inline && fn != x.fn && !(x.relMode && contains(x.spec.RelInline, name)) && !contains(x.spec.Inlines, name) {
 		vars := map[string]Val{}
 		for i, p := range fn.Params {
 			if i < len(args) {
@@ -461,7 +461,7 @@ func (x *Exec) builtin(s *State, b *ssa.Builtin, cc *ssa.CallCommon, args []Val)
 		x.mapDelete(s, mt, args[0].L[0], args[1].L[0])
 		return Val{}
 	case "close":
-		s.events = append(s.events, Event{Name: "chan.close", Recv: &args[0]})
+		s.addEvent(Event{Name: "chan.close", Recv: &args[0]})
 		return Val{}
 	case "print", "println":
 		return Val{}
@@ -578,7 +578,11 @@ func (x *Exec) lockOp(s *State, mu Val, op string) {
 			}
 		}
 		if s.lockedOnce[key] && path != "" {
-			x.havocGuarded(s, base, path)
+			if x.spec.NoHavoc {
+				x.note("nohavoc: " + fnName(x.fn) + " is proved for sequential histories (no interference between its critical sections)")
+			} else {
+				x.havocGuarded(s, base, path)
+			}
 		}
 		s.lockedOnce[key] = true
 		s.held[key] = heldLock{Write: op == "Lock"}
